@@ -3770,7 +3770,8 @@ impl CanonicalizeContext {
 				new_current_child = mrow;	
 				let children = mrow.children();
 				// debug!("looking for left fence: len={}, {:#?}", children.len(), self.find_operator(as_element(children[0]),None, None, Some(as_element(children[1])) ));
-				if children.len() == 2 && (name(&as_element(children[0])) != "mo" ||
+				if parse_stack.is_empty() ||
+				   children.len() == 2 && (name(&as_element(children[0])) != "mo" ||
 				   !CanonicalizeContext::find_operator(Some(self), as_element(children[0]),
 								None, Some(as_element(children[0])), Some(mrow) ).is_left_fence()) {
 					// the mrow did *not* start with an open (hence no push)
